@@ -294,12 +294,20 @@ Definition run_case (c : dcase) : list (N * N * kind) :=
       let invented :=
         if Nat.ltb (length roots) entries || (negb cancelled && returned_seen (d_trace c) && negb (Nat.eqb entries (length roots)))
         then [KInvented] else [] in
+      (* observation only: the returned error against the thresholds the history set and the returned Status itself
+         (evaluated when the trace has diverged from the model, e.g. a Send that never entered the dispatch protocol) *)
+      let thr := model_thr c in
+      let errobs :=
+        if returned_seen (d_trace c) &&
+           negb (Bool.eqb (d_err c) (Z.ltb (Z.of_nat (length (fst (fst (d_status c))))) (fst thr) ||
+                                     Z.ltb (Z.of_nat (length (snd (fst (d_status c))))) (snd thr)))
+        then [KErr] else [] in
       let beh := beh_of (d_trace c) in
       let want := if d_err c then Some (d_err_ctx c) else None in
       let a0 := {| a_st := init roots (d_pre c); a_recv := 0; a_pend := false; a_rets := [] |} in
       (* the trace is replayed over the pipelines the registration history registered (registry model) *)
       match run_trace beh (e0_of (d_trace c)) want a0 0%N (d_trace c) with
-      | (_, Some m) => m :: tagE (reg ++ invented ++ oracle)
+      | (_, Some m) => m :: tagE (reg ++ invented ++ errobs ++ oracle)
       | (a, None) =>
           tagE ((if d_quiet c && returned_seen (d_trace c) && negb (is_terminal (a_st a)) then [KProto] else []) ++
                 final_checks c (a_st a) (a_rets a) ++ reg ++ invented ++ oracle)
